@@ -245,7 +245,10 @@ pub fn convert(src: &str) -> String {
             cur.index += 1;
         }
     }
-    res.trim().to_string()
+    // keep leading line breaks so that line numbers in messages match the source
+    res.trim_end()
+        .trim_start_matches(|c: char| c.is_whitespace() && c != '\n' && c != '\r')
+        .to_string()
 }
 
 #[cfg(test)]
